@@ -101,6 +101,7 @@ type InvCase struct {
 	Log2Max int        `json:"log2max"`
 	Pattern string     `json:"pattern"`
 	ValSeed uint64     `json:"valSeed"`
+	Twice   bool       `json:"twice"` // evaluate a second time with the same evaluator and the same input ciphertext
 }
 
 func (c InvCase) RandSeed() uint64 { return c.Seed }
@@ -114,6 +115,7 @@ func genInv(t *rapid.T) InvCase {
 	c.Log2Max = rapid.IntRange(0, 10).Draw(t, "log2max")
 	c.Pattern = []string{"loguniform", "ends", "uniform"}[rapid.IntRange(0, 2).Draw(t, "pattern")]
 	c.ValSeed = rapid.Uint64().Draw(t, "valSeed")
+	c.Twice = rapid.IntRange(0, 2).Draw(t, "twice") == 0
 	return c
 }
 
@@ -158,48 +160,60 @@ func runInv(c InvCase, rec *h.Rec) error {
 		return h.Failf("C13:inv:encrypt", "%v", err)
 	}
 	invEval := inverse.NewEvaluator(cc.params, minimax.NewEvaluator(cc.params, cc.eval, cc.btp))
-	var out *rlwe.Ciphertext
-	var pmsg string
-	switch c.Domain {
-	case "positive":
-		out, err, pmsg = guarded(func() (*rlwe.Ciphertext, error) {
-			return invEval.EvaluatePositiveDomainNew(ct, float64(c.Log2Min), float64(c.Log2Max))
-		})
-	case "negative":
-		out, err, pmsg = guarded(func() (*rlwe.Ciphertext, error) {
-			return invEval.EvaluateNegativeDomainNew(ct, float64(c.Log2Min), float64(c.Log2Max))
-		})
-	case "full":
-		out, err, pmsg = guarded(func() (*rlwe.Ciphertext, error) {
-			return invEval.EvaluateFullDomainNew(ct, float64(c.Log2Min), float64(c.Log2Max), minimax.NewPolynomial(comparison.DefaultCompositePolynomialForSign))
-		})
-	default:
-		out, err, pmsg = guarded(func() (*rlwe.Ciphertext, error) { return invEval.GoldschmidtDivisionNew(ct, float64(c.Log2Min)) })
-	}
-	if err != nil || pmsg != "" {
-		key, msg := "C13:inv:"+c.Domain+":error", fmt.Sprintf("log2min %d log2max %d: %v %s", c.Log2Min, c.Log2Max, err, pmsg)
-		if c.Domain == "full" && c.Log2Max == 0 && err != nil && strings.Contains(err.Error(), "level is too low") {
-			// no interval normalisation (log2max <= 0): nothing bootstraps the Goldschmidt result before the final product with the sign
-			key = "C13:inv:full:no-normalization:level-too-low"
-			if rec.Known(key, msg) {
-				rec.Class("known=" + key)
-				return nil
-			}
-		}
-		return h.Failf(key, "%s", msg)
-	}
 	rec.Class("domain=" + c.Domain)
 	rec.Class("pattern=" + c.Pattern)
-	got, err := cc.decrypt(out)
-	if err != nil {
-		return h.Failf("C13:inv:decode", "%v", err)
+	rounds := 1
+	if c.Twice {
+		rounds = 2
+		rec.Class("twice")
 	}
-	// relative error: the Goldschmidt truncation error is below N/2/scale by construction of the iteration count; the scheme
-	// error is amplified by at most ~1/x^2 absolute, i.e. 1/x relative (<= 2^20): tolerance 2^-30 relative at scale >= 2^86
-	for i := range got {
-		g, _ := got[i].Float64()
-		if rel := math.Abs(g*x[i] - 1); !(rel <= math.Ldexp(1, -30)) {
-			return h.Failf("C13:inv:"+c.Domain+":value", "slot %d: x=%g got %g want %g (relative error 2^%.1f; log2min %d log2max %d)", i, x[i], g, 1/x[i], math.Log2(rel), c.Log2Min, c.Log2Max)
+	// the second round re-uses the evaluator object AND the input ciphertext: both must have been left intact
+	for round := 0; round < rounds; round++ {
+		stage := ""
+		if round > 0 {
+			stage = ":second-use"
+		}
+		var out *rlwe.Ciphertext
+		var pmsg string
+		switch c.Domain {
+		case "positive":
+			out, err, pmsg = guarded(func() (*rlwe.Ciphertext, error) {
+				return invEval.EvaluatePositiveDomainNew(ct, float64(c.Log2Min), float64(c.Log2Max))
+			})
+		case "negative":
+			out, err, pmsg = guarded(func() (*rlwe.Ciphertext, error) {
+				return invEval.EvaluateNegativeDomainNew(ct, float64(c.Log2Min), float64(c.Log2Max))
+			})
+		case "full":
+			out, err, pmsg = guarded(func() (*rlwe.Ciphertext, error) {
+				return invEval.EvaluateFullDomainNew(ct, float64(c.Log2Min), float64(c.Log2Max), minimax.NewPolynomial(comparison.DefaultCompositePolynomialForSign))
+			})
+		default:
+			out, err, pmsg = guarded(func() (*rlwe.Ciphertext, error) { return invEval.GoldschmidtDivisionNew(ct, float64(c.Log2Min)) })
+		}
+		if err != nil || pmsg != "" {
+			key, msg := "C13:inv:"+c.Domain+":error", fmt.Sprintf("log2min %d log2max %d: %v %s", c.Log2Min, c.Log2Max, err, pmsg)
+			if c.Domain == "full" && c.Log2Max == 0 && err != nil && strings.Contains(err.Error(), "level is too low") {
+				// no interval normalisation (log2max <= 0): nothing bootstraps the Goldschmidt result before the final product with the sign
+				key = "C13:inv:full:no-normalization:level-too-low"
+				if rec.Known(key, msg) {
+					rec.Class("known=" + key)
+					return nil
+				}
+			}
+			return h.Failf(key+stage, "%s", msg)
+		}
+		got, err := cc.decrypt(out)
+		if err != nil {
+			return h.Failf("C13:inv:decode", "%v", err)
+		}
+		// relative error: the Goldschmidt truncation error is below N/2/scale by construction of the iteration count; the scheme
+		// error is amplified by at most ~1/x^2 absolute, i.e. 1/x relative (<= 2^20): tolerance 2^-30 relative at scale >= 2^86
+		for i := range got {
+			g, _ := got[i].Float64()
+			if rel := math.Abs(g*x[i] - 1); !(rel <= math.Ldexp(1, -30)) {
+				return h.Failf("C13:inv:"+c.Domain+":value"+stage, "slot %d: x=%g got %g want %g (relative error 2^%.1f; log2min %d log2max %d)", i, x[i], g, 1/x[i], math.Log2(rel), c.Log2Min, c.Log2Max)
+			}
 		}
 	}
 	rec.NonTrivial(fmt.Sprintf("inv|%s|ci=%v|min=%d|max=%d|%s", c.Domain, c.Params.CI, c.Log2Min/4, c.Log2Max/3, c.Pattern))
@@ -225,6 +239,7 @@ type Mod1Case struct {
 	InvDegree       int        `json:"invDegree"`
 	LogMessageRatio int        `json:"logMessageRatio"`
 	Scaling         float64    `json:"scaling"`
+	More            []float64  `json:"more"` // scalings of further evaluations from the SAME mod1.Parameters / evaluator
 	ValSeed         uint64     `json:"valSeed"`
 }
 
@@ -235,6 +250,25 @@ func (c Mod1Case) RandSeed() uint64 { return c.Seed }
 func chebRemainder(k float64, n int) float64 {
 	lg, _ := math.Lgamma(float64(n + 2))
 	return math.Exp(float64(n)*math.Log(2*math.Pi) + float64(n+1)*math.Log(k) - lg - float64(n)*math.Ln2)
+}
+
+// output scalings: 1 goes through EvaluateNew, the others through EvaluateAndScaleNew
+var mod1Scalings = []float64{1, 0.5, 2, 1, 0.25, 3, 1.5, 0.75}
+
+// polyFingerprint renders every coefficient of a polynomial exactly (nil stays nil).
+func polyFingerprint(p *bignum.Polynomial) string {
+	if p == nil {
+		return "<nil>"
+	}
+	var sb strings.Builder
+	for _, c := range p.Coeffs {
+		if c == nil {
+			sb.WriteString("nil;")
+			continue
+		}
+		fmt.Fprintf(&sb, "%s,%s;", c[0].Text('p', 0), c[1].Text('p', 0))
+	}
+	return sb.String()
 }
 
 func genMod1(t *rapid.T) Mod1Case {
@@ -271,7 +305,10 @@ func genMod1(t *rapid.T) Mod1Case {
 		c.InvDegree = []int{3, 5, 7}[rapid.IntRange(0, 2).Draw(t, "invDegree")]
 	}
 	c.LogMessageRatio = rapid.IntRange(4, 8).Draw(t, "logMessageRatio")
-	c.Scaling = []float64{1, 1, 0.5, 2}[rapid.IntRange(0, 3).Draw(t, "scaling")]
+	c.Scaling = mod1Scalings[rapid.IntRange(0, len(mod1Scalings)-1).Draw(t, "scaling")]
+	for i, n := 0, rapid.IntRange(0, 2).Draw(t, "nMore"); i < n; i++ {
+		c.More = append(c.More, mod1Scalings[rapid.IntRange(0, len(mod1Scalings)-1).Draw(t, fmt.Sprintf("more%d", i))])
+	}
 	c.ValSeed = rapid.Uint64().Draw(t, "valSeed")
 	depth := advertisedDepth(c.Degree) + c.DoubleAngle
 	if c.InvDegree > 0 {
@@ -342,10 +379,10 @@ func runMod1(c Mod1Case, rec *h.Rec) error {
 			I = -float64(c.K - 1)
 		}
 		u[i] = (I + eps) / float64(c.K)
-		// (qDiff*scaling/2pi) sin(2 pi (I+eps)), respectively its arcsine
-		want[i] = qDiff * c.Scaling / (2 * math.Pi) * math.Sin(2*math.Pi*eps)
+		// model for scaling 1: (qDiff/2pi) sin(2 pi (I+eps)), respectively its arcsine
+		want[i] = qDiff / (2 * math.Pi) * math.Sin(2*math.Pi*eps)
 		if c.InvDegree > 0 {
-			want[i] = qDiff * c.Scaling * eps
+			want[i] = qDiff * eps
 		}
 	}
 	pt := ckks.NewPlaintext(params, params.MaxLevel())
@@ -358,43 +395,62 @@ func runMod1(c Mod1Case, rec *h.Rec) error {
 		return h.Failf("C13:mod1:encrypt", "%v", err)
 	}
 	mev := mod1.NewEvaluator(eval, ckkspoly.NewEvaluator(params, eval), mp)
-	var out *rlwe.Ciphertext
-	var pmsg string
-	if c.Scaling == 1 {
-		out, err, pmsg = guarded(func() (*rlwe.Ciphertext, error) { return mev.EvaluateNew(ct) })
-	} else {
-		out, err, pmsg = guarded(func() (*rlwe.Ciphertext, error) { return mev.EvaluateAndScaleNew(ct, complex(c.Scaling, 0)) })
-	}
 	rec.Classf("type=%s", c.Type)
 	rec.Classf("arcsine=%v", c.InvDegree > 0)
 	rec.Classf("doubleAngle=%d", c.DoubleAngle)
+	rec.Classf("evaluations=%d", 1+len(c.More))
 	if c.Degree&(c.Degree-1) == 0 {
 		rec.Class("degree=2^k")
 	}
-	if err != nil || pmsg != "" {
-		return h.Failf("C13:mod1:"+c.Type+":error", "K %d degree %d doubleAngle %d invDegree %d: %v %s", c.K, c.Degree, c.DoubleAngle, c.InvDegree, err, pmsg)
-	}
-	if wantLevel := params.MaxLevel() - lit.Depth(); out.Level() != wantLevel {
-		return h.Failf("C13:mod1:level", "output level %d, want LevelQ - Depth() = %d", out.Level(), wantLevel)
-	}
-	got := make([]float64, slots)
-	if err = ecd.Decode(dec.DecryptNew(out), got); err != nil {
-		return h.Failf("C13:mod1:decode", "%v", err)
-	}
-	// tolerance: interpolation remainder (x 4 per double angle), truncation of the arcsine series, scheme error
+	fpPoly, fpInv := polyFingerprint(&mp.Mod1Poly), polyFingerprint(mp.Mod1InvPoly)
 	kk := float64(c.K) / math.Exp2(float64(c.DoubleAngle))
-	tol := 2*chebRemainder(kk, c.Degree)*math.Pow(4, float64(c.DoubleAngle))*qDiff*c.Scaling + math.Ldexp(1, -20)
-	if c.InvDegree > 0 {
-		s := math.Sin(2 * math.Pi * epsMax)
-		tol += qDiff * c.Scaling / (2 * math.Pi) * math.Pow(s, float64(c.InvDegree+2)) / (1 - s*s)
-	}
-	for i := range got {
-		if e := math.Abs(got[i] - want[i]); !(e <= tol) {
-			return h.Failf("C13:mod1:"+c.Type+":value", "slot %d: x/K=%v got %v want %v (error 2^%.1f, bound 2^%.1f; K %d degree %d doubleAngle %d invDegree %d scaling %v)", i, u[i], got[i], want[i], math.Log2(e), math.Log2(tol), c.K, c.Degree, c.DoubleAngle, c.InvDegree, c.Scaling)
+	discriminating := true
+
+	// several evaluations from the same Parameters / evaluator / input: each one must match the model for ITS scaling
+	for round, scaling := range append([]float64{c.Scaling}, c.More...) {
+		var out *rlwe.Ciphertext
+		var pmsg string
+		if scaling == 1 && round&1 == 0 {
+			out, err, pmsg = guarded(func() (*rlwe.Ciphertext, error) { return mev.EvaluateNew(ct) })
+		} else {
+			out, err, pmsg = guarded(func() (*rlwe.Ciphertext, error) { return mev.EvaluateAndScaleNew(ct, complex(scaling, 0)) })
+		}
+		stage := ""
+		if round > 0 {
+			stage = ":repeated"
+		}
+		if err != nil || pmsg != "" {
+			return h.Failf("C13:mod1:"+c.Type+":error"+stage, "evaluation %d (scaling %v): K %d degree %d doubleAngle %d invDegree %d: %v %s", round, scaling, c.K, c.Degree, c.DoubleAngle, c.InvDegree, err, pmsg)
+		}
+		if wantLevel := params.MaxLevel() - lit.Depth(); out.Level() != wantLevel {
+			return h.Failf("C13:mod1:level", "output level %d, want LevelQ - Depth() = %d", out.Level(), wantLevel)
+		}
+		got := make([]float64, slots)
+		if err = ecd.Decode(dec.DecryptNew(out), got); err != nil {
+			return h.Failf("C13:mod1:decode", "%v", err)
+		}
+		// tolerance: interpolation remainder (x 4 per double angle), truncation of the arcsine series, scheme error
+		tol := 2*chebRemainder(kk, c.Degree)*math.Pow(4, float64(c.DoubleAngle))*qDiff*scaling + math.Ldexp(1, -20)
+		if c.InvDegree > 0 {
+			s := math.Sin(2 * math.Pi * epsMax)
+			tol += qDiff * scaling / (2 * math.Pi) * math.Pow(s, float64(c.InvDegree+2)) / (1 - s*s)
+		}
+		for i := range got {
+			w := want[i] * scaling // want[] holds the model for scaling 1
+			if e := math.Abs(got[i] - w); !(e <= tol) {
+				return h.Failf("C13:mod1:"+c.Type+":value"+stage, "evaluation %d of %v: slot %d: x/K=%v got %v want %v (error 2^%.1f, bound 2^%.1f; K %d degree %d doubleAngle %d invDegree %d scaling %v)", round, append([]float64{c.Scaling}, c.More...), i, u[i], got[i], w, math.Log2(e), math.Log2(tol), c.K, c.Degree, c.DoubleAngle, c.InvDegree, scaling)
+			}
+		}
+		if !(tol < math.Ldexp(1, -10)*scaling*epsMax) {
+			discriminating = false
+		}
+		// the evaluator must not modify the polynomials held by the Parameters
+		if p, q := polyFingerprint(&mp.Mod1Poly), polyFingerprint(mp.Mod1InvPoly); p != fpPoly || q != fpInv {
+			return h.Failf("C13:mod1:parameters-modified", "after evaluation %d with scaling %v the coefficients of Parameters.Mod1Poly (changed: %v) / Mod1InvPoly (changed: %v) differ from those before the call", round, scaling, p != fpPoly, q != fpInv)
 		}
 	}
-	if tol < math.Ldexp(1, -10)*c.Scaling*epsMax {
-		rec.NonTrivial(fmt.Sprintf("mod1|%s|K=%d|deg=%d|da=%d|inv=%d|ratio=%d|scal=%v", c.Type, c.K, c.Degree, c.DoubleAngle, c.InvDegree, c.LogMessageRatio, c.Scaling))
+	if discriminating {
+		rec.NonTrivial(fmt.Sprintf("mod1|%s|K=%d|deg=%d|da=%d|inv=%d|ratio=%d|scal=%v%v", c.Type, c.K, c.Degree, c.DoubleAngle, c.InvDegree, c.LogMessageRatio, c.Scaling, c.More))
 	} else {
 		rec.Class("not-discriminating")
 	}
@@ -415,6 +471,7 @@ type MinimaxCase struct {
 	Config  int        `json:"config"` // index into minimaxConfigs
 	ValSeed uint64     `json:"valSeed"`
 	Pattern string     `json:"pattern"`
+	Twice   bool       `json:"twice"`
 }
 
 func (c MinimaxCase) RandSeed() uint64 { return c.Seed }
@@ -461,6 +518,7 @@ func genMinimax(t *rapid.T) MinimaxCase {
 	c.Config = rapid.IntRange(0, len(minimaxConfigs)-1).Draw(t, "config")
 	c.ValSeed = rapid.Uint64().Draw(t, "valSeed")
 	c.Pattern = []string{"uniform", "edge", "mix"}[rapid.IntRange(0, 2).Draw(t, "pattern")]
+	c.Twice = rapid.Bool().Draw(t, "twice")
 	return c
 }
 
@@ -499,34 +557,59 @@ func runMinimax(c MinimaxCase, rec *h.Rec) error {
 		return h.Failf("C13:minimax:encrypt", "%v", err)
 	}
 	mev := minimax.NewEvaluator(cc.params, cc.eval, cc.btp)
-	out, err, pmsg := guarded(func() (*rlwe.Ciphertext, error) { return mev.Evaluate(ct, mcp) })
-	if err != nil || pmsg != "" {
-		return h.Failf("C13:minimax:Evaluate:error", "config %v: %v %s", cfg, err, pmsg)
-	}
 	rec.Classf("config=%d", c.Config)
-	if out.Scale.Cmp(ct.Scale) != 0 {
-		return h.Failf("C13:minimax:scale", "output scale %v != input scale %v", &out.Scale.Value, &ct.Scale.Value)
-	}
-	got, err := cc.decrypt(out)
-	if err != nil {
-		return h.Failf("C13:minimax:decode", "%v", err)
-	}
-	// scheme error through the composition: every stage contributes one unit error, amplified by the Lipschitz
-	// constants (sum |c_k| k^2) of the following stages
-	tol := math.Ldexp(float64(cc.params.N()), 12) * math.Exp2(-float64(c.Params.LogScale)) * float64(len(coeffs)) * lip
-	for i := range got {
-		y := bcNew(x[i], 0)
-		for _, p := range ref {
-			y = refEval(true, p, y)
+	mcpFP := func() string {
+		var sb strings.Builder
+		for i := range mcp {
+			sb.WriteString(polyFingerprint(&mcp[i]))
+			sb.WriteString("|")
 		}
-		w, _ := y.re.Float64()
-		g, _ := got[i].Float64()
-		if e := math.Abs(g - w); !(e <= tol) {
-			return h.Failf("C13:minimax:value", "slot %d: x=%v got %v, composite polynomial gives %v (error 2^%.1f, bound 2^%.1f; config %v)", i, x[i], g, w, math.Log2(e), math.Log2(tol), cfg)
+		return sb.String()
+	}
+	fp := mcpFP()
+	rounds := 1
+	if c.Twice {
+		rounds = 2
+		rec.Class("twice")
+	}
+	var tol float64
+	// the second round re-uses evaluator, composite polynomial and input ciphertext
+	for round := 0; round < rounds; round++ {
+		stage := ""
+		if round > 0 {
+			stage = ":second-use"
 		}
-		// the generated polynomial must at least decide the sign on its stated domain |x| >= 2^-logalpha
-		if x[i] != 0 && math.Abs(w-sgn(x[i])) >= 0.5 {
-			return h.Failf("C13:minimax:gen:sign", "config %v: P(%v) = %v", cfg, x[i], w)
+		out, err, pmsg := guarded(func() (*rlwe.Ciphertext, error) { return mev.Evaluate(ct, mcp) })
+		if err != nil || pmsg != "" {
+			return h.Failf("C13:minimax:Evaluate:error"+stage, "config %v: %v %s", cfg, err, pmsg)
+		}
+		if out.Scale.Cmp(ct.Scale) != 0 {
+			return h.Failf("C13:minimax:scale"+stage, "output scale %v != input scale %v", &out.Scale.Value, &ct.Scale.Value)
+		}
+		got, err := cc.decrypt(out)
+		if err != nil {
+			return h.Failf("C13:minimax:decode", "%v", err)
+		}
+		// scheme error through the composition: every stage contributes one unit error, amplified by the Lipschitz
+		// constants (sum |c_k| k^2) of the following stages
+		tol = math.Ldexp(float64(cc.params.N()), 12) * math.Exp2(-float64(c.Params.LogScale)) * float64(len(coeffs)) * lip
+		for i := range got {
+			y := bcNew(x[i], 0)
+			for _, p := range ref {
+				y = refEval(true, p, y)
+			}
+			w, _ := y.re.Float64()
+			g, _ := got[i].Float64()
+			if e := math.Abs(g - w); !(e <= tol) {
+				return h.Failf("C13:minimax:value"+stage, "slot %d: x=%v got %v, composite polynomial gives %v (error 2^%.1f, bound 2^%.1f; config %v)", i, x[i], g, w, math.Log2(e), math.Log2(tol), cfg)
+			}
+			// the generated polynomial must at least decide the sign on its stated domain |x| >= 2^-logalpha
+			if x[i] != 0 && math.Abs(w-sgn(x[i])) >= 0.5 {
+				return h.Failf("C13:minimax:gen:sign", "config %v: P(%v) = %v", cfg, x[i], w)
+			}
+		}
+		if mcpFP() != fp {
+			return h.Failf("C13:minimax:polynomial-modified", "the coefficients of the composite polynomial changed during Evaluate")
 		}
 	}
 	if tol < math.Ldexp(1, -10) {
